@@ -36,6 +36,24 @@ pub struct Case {
     /// afterwards, on ONE keep-alive connection: a request, then the latched key is replaced by this one, then the request again
     #[serde(default)]
     pub rotate_to: Option<(String, String)>,
+    /// 1: the request has no Host header (hyper's server accepts that); 2: no Host header and HTTP/1.0
+    #[serde(default)]
+    pub no_host: u8,
+    /// the wall clock moves forward by this many seconds between a first request and the request under test
+    /// (only when the clock shim is loaded: C05 workers)
+    #[serde(default)]
+    pub clock_jump_s: Option<u32>,
+}
+
+/// move the process's wall clock forward (harness/csrc/clockshift.c, preloaded into the C05 workers); false = shim absent
+pub fn clock_jump(secs: u32) -> bool {
+    let f = unsafe { libc::dlsym(libc::RTLD_DEFAULT, b"clockshift_add\0".as_ptr() as *const libc::c_char) };
+    if f.is_null() {
+        return false;
+    }
+    let add: extern "C" fn(i64) = unsafe { std::mem::transmute(f) };
+    add(secs as i64 * 1_000_000_000);
+    true
 }
 
 fn spoof() -> impl Strategy<Value = Spoof> {
@@ -86,9 +104,9 @@ pub fn strategy(spoof_range: std::ops::Range<usize>, key_prob: f64) -> impl Stra
         exempt_or(Just(gen::GUrl { path: String::new(), query: None })),
         prop::collection::vec(spoof(), spoof_range),
         prop::collection::vec(any::<u16>(), 8),
-        (crate::props::c04::query(), prop::option::weighted(0.2, (crate::props::c04::guid(), crate::props::c04::key_hex()))),
+        (crate::props::c04::query(), prop::option::weighted(0.2, (crate::props::c04::guid(), crate::props::c04::key_hex())), prop_oneof![8 => Just(0u8), 1 => Just(1u8), 1 => Just(2u8)], prop::option::weighted(0.2, prop::sample::select(vec![1u32, 59, 60, 61, 120, 300, 3600, 3660, 86400, 7 * 86400, 31 * 86400]))),
     )
-        .prop_map(|((dest, uid_sel, root), helper_sel, key, mut req, (exempt_method, exempt_url), spoofs, positions, (rich_query, rotate_to))| {
+        .prop_map(|((dest, uid_sel, root), helper_sel, key, mut req, (exempt_method, exempt_url), spoofs, positions, (rich_query, rotate_to, no_host, clock_jump_s))| {
             if let Some(m) = exempt_method {
                 req.method = m.to_string();
                 req.url = exempt_url;
@@ -102,12 +120,12 @@ pub fn strategy(spoof_range: std::ops::Range<usize>, key_prob: f64) -> impl Stra
                     req.url.query = rich_query;
                 }
             }
-            Case { rec: Rec { uid_sel, helper_sel, is_root: root.unwrap_or(uid_sel == 0), dest }, key, req, spoofs, positions, rotate_to }
+            Case { rec: Rec { uid_sel, helper_sel, is_root: root.unwrap_or(uid_sel == 0), dest }, key, req, spoofs, positions, rotate_to, no_host, clock_jump_s }
         })
 }
 
-pub const RULE_C05: &str = "generator: attributed, authorised requests (IMDS from root and non-root callers with the elevation flag following the uid or set independently; WireServer/HostGAPlugin from elevated callers; another destination) with no rule sets, a key latched in 70% of the cases, carrying 0-3 client-supplied copies of x-ms-azure-host-claims / -date / -authorization in random letter case, at random positions among the other headers, with values {the opposite or same elevation claim in two spellings, an old and a future RFC 1123 date, a well-formed authorization value with a random MAC, junk}. oracle on the raw bytes captured at the mock host: exactly one claims line whose value states the record's elevation; exactly one date line, RFC 1123, within 5 s of the harness clock; if a key is latched and the request is not signature-exempt exactly one authorization line, none of the client's values, and its MAC verifies (C04). non-trivial: at least one spoofed copy; distinct by hash of the case.";
-pub const RULE_C04: &str = "end-to-end half: the same rig with a key always latched and no spoofed headers; query strings from C04's colliding pools, header sets, bodies as Content-Length or chunked. oracle: the mock's raw bytes are parsed by the independent HTTP reader; exactly one authorization line 'Azure-HMAC-SHA256 <guid> <64 hex>'; HMAC_ref(key, canon_ref(received method, de-framed body, received header lines, received target)) equals it for one of the two admissible parameter orders (a transport-generated 'content-length: 0' on a body-less request may be in or out: counted as underspecified). In 20% of the cases the request is then sent twice on one keep-alive connection with the latched key replaced in between: the second one must announce and verify under the new key. Exempt uploads (PUT /vmAgentLog, POST /machine/?comp=telemetrydata, any letter case) must carry no proxy signature. non-trivial: >= 2 parameters or an escaped/valueless one, or >= 2 client headers, or a body with a line feed; distinct by hash of the case.";
+pub const RULE_C05: &str = "generator: in 20% of the cases the wall clock of the worker process is moved forward (1 s .. 31 days; 59/60/61 s, hours and days included) between a first request and the request under test, through a preloaded clock_gettime shim that shifts CLOCK_REALTIME for harness and agent alike; attributed, authorised requests (IMDS from root and non-root callers with the elevation flag following the uid or set independently; WireServer/HostGAPlugin from elevated callers; another destination) with no rule sets, a key latched in 70% of the cases, carrying 0-3 client-supplied copies of x-ms-azure-host-claims / -date / -authorization in random letter case, at random positions among the other headers, with values {the opposite or same elevation claim in two spellings, an old and a future RFC 1123 date, a well-formed authorization value with a random MAC, junk}. oracle on the raw bytes captured at the mock host: exactly one claims line whose value states the record's elevation; exactly one date line, RFC 1123, within 5 s of the harness clock; if a key is latched and the request is not signature-exempt exactly one authorization line, none of the client's values, and its MAC verifies (C04). non-trivial: at least one spoofed copy; distinct by hash of the case.";
+pub const RULE_C04: &str = "end-to-end half: the same rig with a key always latched and no spoofed headers; query strings from C04's colliding pools, header sets, bodies as Content-Length or chunked. oracle: the mock's raw bytes are parsed by the independent HTTP reader; exactly one authorization line 'Azure-HMAC-SHA256 <guid> <64 hex>'; HMAC_ref(key, canon_ref(received method, de-framed body, received header lines, received target)) equals it for one of the two admissible parameter orders (a transport-generated 'content-length: 0' on a body-less request may be in or out: counted as underspecified). 10% of the requests carry no Host header and 10% are HTTP/1.0 without one (hyper's server accepts both). In 20% of the cases the request is then sent twice on one keep-alive connection with the latched key replaced in between: the second one must announce and verify under the new key. Exempt uploads (PUT /vmAgentLog, POST /machine/?comp=telemetrydata, any letter case) must carry no proxy signature. non-trivial: >= 2 parameters or an escaped/valueless one, or >= 2 client headers, or a body with a line feed; distinct by hash of the case.";
 
 fn days_from_civil(y: i64, m: i64, d: i64) -> i64 {
     let y = if m <= 2 { y - 1 } else { y };
@@ -208,7 +226,28 @@ pub fn eval(rig: &Rig, case: &Case, stats: &mut Stats, c04_focus: bool) -> Outco
         let pos = crate::runner::pick(case.positions[i % case.positions.len()], req.headers.len() + 1);
         req.headers.insert(pos, (name, s.value.clone()));
     }
-    let wire = req.wire(&target, &[]);
+    let mut wire = req.wire(&target, &[]);
+    if case.no_host % 3 != 0 && (case.no_host % 3 == 1 || req.chunked.is_none() || req.body.is_empty()) {
+        let line = b"Host: 168.63.129.16\r\n";
+        if let Some(at) = wire.windows(line.len()).position(|w| w == line) {
+            wire.drain(at..at + line.len());
+            stats.class("request:without-host-header");
+            if case.no_host % 3 == 2 {
+                if let Some(v) = wire.windows(11).position(|w| w == b" HTTP/1.1\r\n") {
+                    wire[v + 8] = b'0';
+                    stats.class("request:http/1.0");
+                }
+            }
+        }
+    }
+    if let Some(j) = case.clock_jump_s {
+        // a first request, then the wall clock jumps, then the request under test at once
+        let first = crate::rawhttp::request_head("GET", "/before-the-clock-moved", &[("Host".into(), b"h".to_vec())]);
+        let _ = exchange(rig, Some(&case.rec), &first, "GET");
+        if clock_jump(j) {
+            stats.class("wall-clock-moved-forward-between-two-requests");
+        }
+    }
     let t_send = SystemTime::now().duration_since(UNIX_EPOCH).unwrap().as_secs() as i64;
     let obs = match exchange(rig, Some(&case.rec), &wire, &req.method) {
         Ok(o) => o,
